@@ -14,7 +14,7 @@ META = {
     "title": "Equality saturation preserves program results",
     "category": "proof",
     "design_ref": "DESIGN.md §5 C28",
-    "lean_modules": ["XdslProofs.C28", "XdslProofs.C28Total", "XdslProofs.C28Union"],
+    "lean_modules": ["XdslProofs.C28", "XdslProofs.C28Total", "XdslProofs.C28Union", "XdslProofs.C28Reorder"],
     "text": (
         "Lean model XdslModel/EGraph.lean of the e-graph embedding (equivalence.class ops over SSA values): "
         "createEclasses (eqsat-create-eclasses), addCosts (eqsat-add-costs fixed point), extract (eqsat-extract incl. "
@@ -37,7 +37,15 @@ META = {
         "by apply_eqsat_pdl_interp with bounded iterations), source and extracted function executed by the Lean "
         "reference semantics (driver model `sem`) on random inputs; no-rule output compared structurally with the "
         "source minus dead code; stage-wise structural correspondence of the real create / add-costs / extract / "
-        "eclass_union with the model (class structure, chosen alternative, operation order)."
+        "eclass_union with the model (class structure, chosen alternative, operation order). "
+        "Modules of several functions go through the same pipelines (the rewriter's hash-cons table, union-find and "
+        "worklist are shared by the module): every function is observed, compared with the model and executed on its "
+        "own, and after every stage no function may use a value defined outside its body. "
+        "The re-ordering that ends eqsat-extract (restore_dominance_order) is additionally run on blocks of its own: "
+        "every DAG of up to 4 binary operations in every placement, random larger blocks in several disorder shapes "
+        "(uses nested in regions, a few cyclic blocks); oracle: the result is a permutation of the block and, when "
+        "the dependencies are acyclic, every operation follows the definitions of its operands; the new order is "
+        "compared with the model's topoSort (theorems topoSort_perm, topoSort_ordered, topoSort_runs in C28Reorder)."
     ),
     "technique": "Lean 4 proofs on an abstract e-graph model + translation validation against the Lean reference semantics + stage-wise structural correspondence",
     "level_note": (
@@ -53,14 +61,21 @@ META = {
         "passes treat them alike), its constant-folding role in the rewriter is not modelled. "
         "Success of extraction and of the run of its output for a saturated (possibly cyclic) graph is validated, not "
         "proved (extract_sound_partial / pipeline_sound_partial are partial-correctness statements; missing: "
-        "acyclicity of the alternatives chosen by the cost fixed point, safety of every erase, correctness of the "
-        "re-ordering); for the no-rule round trip it is proved (create_extract_id). An exception raised by a modelled "
+        "acyclicity of the alternatives chosen by the cost fixed point, safety of every erase; the re-ordering itself "
+        "is proved correct on every acyclic block — C28Reorder — but not yet chained into a total extract theorem); "
+        "for the no-rule round trip it is proved (create_extract_id). An exception raised by a modelled "
         "stage (create, add-costs, extract) is compared with the model (which is total / raises only on an unsafe "
         "erase) and reported as broken correspondence when the model disagrees."
     ),
     "rule": (
-        "A case = generated function (dense single-type arith DAG biased towards rule left-hand sides, or "
-        "vp/proggen program restricted to pure arith/cmp/select/cast without control flow and externs) × rule set "
+        "A case = generated module: @main (dense single-type arith DAG biased towards rule left-hand sides; `mirror`: "
+        "such a DAG in which some operations are stated again LATER in the block in the form a library rule produces "
+        "from them — operands swapped, x*2 / x<<1 / x+x, re-association, distribution — with a live user in between "
+        "and mostly a cost table that makes the later form the cheaper one, so that the rewriter re-uses an operation "
+        "behind the matched root and extraction has to re-order the block; or a "
+        "vp/proggen program restricted to pure arith/cmp/select/cast without control flow and externs), in 15–30 % of "
+        "the cases together with 1–2 further functions of the same element type placed before or after it (dense, "
+        "multisite, or small functions built around the constants 0/1/2 that library rules create) × rule set "
         "(empty, or 1–10 sound rules of c28_rules for one element type; `multisite` functions carry the same redex "
         "`v op v` of a constant-CREATING rule (x-x→0, x^x→0, x%x→0, x/x→1, x+x→x*2) at 2–4 sites with other uses of the "
         "operands and without the created constant in the source, so that several classes are merged into one fresh "
@@ -68,7 +83,9 @@ META = {
         "(default, random cost file, random per-op eqsat_cost) × 4–5 random input vectors. Non-trivial = the "
         "source run is defined (not ub) and, for the rules leg, saturation added at least one alternative to a "
         "class (counted per distinct (program, rules, costs, input)); no-rule leg: the program has ≥1 live op. "
-        "Correspondence cases: every stage output of every case, plus eclass_union sequences on created e-graphs in "
+        "Reorder leg: a block = operations in block order with operand ids; non-trivial = restore_dominance_order "
+        "changed the order (counted per distinct block). "
+        "Correspondence cases: every stage output of every function of every case, every reorder block, plus eclass_union sequences on created e-graphs in "
         "which the classes of one constant value are equivalence.const_class ops: random pairs (stale handles included) "
         "and targeted const-class × regular-class merges of equal size in both argument orders followed by further "
         "merges through both handles."
@@ -97,6 +114,10 @@ SIG_RESULT_RULES = "extracted program returns different results than the source 
 SIG_RESULT_NORULE = "create-eclasses + extract without rules changes the results"
 SIG_DROPPED = "create-eclasses + extract without rules is not the source minus dead code"
 SIG_LEFTOVER = "e-class left unextracted although every operation has a cost"
+SIG_FOREIGN = "a function uses a value that is defined in another function"
+SITE_REORDER = "xdsl.transforms.eqsat_extract.restore_dominance_order"
+SIG_REORDER_ORDER = "an operation is left before the definition of one of its operands (acyclic block)"
+SIG_REORDER_PERM = "the reordered block is not a permutation of the operations of the block"
 SITE_CONVERT_PASS = "xdsl.transforms.convert_pdl_to_pdl_interp.conversion.ConvertPDLToPDLInterpPass.apply"
 STAGE_SITE = {"convert": SITE_CONVERT_PASS, "saturate": SITE_APPLY, "costs": SITE_COSTS, "extract": SITE_EXTRACT}
 # documented unsupported cases of the pipeline: counted, never judged
@@ -205,25 +226,56 @@ def is_class(o: Any) -> bool:
     return isinstance(o, equivalence.ClassOp | equivalence.ConstantClassOp)
 
 
-def main_block(module: Any) -> Any:
+def main_block(module: Any, fname: str = "main") -> Any:
     from xdsl.dialects import func
 
     for o in module.body.ops:
-        if isinstance(o, func.FuncOp) and o.sym_name.data == "main":
+        if isinstance(o, func.FuncOp) and o.sym_name.data == fname:
             return o.body.block
-    raise miniir.Unsupported("no @main")
+    raise miniir.Unsupported("no @" + fname)
+
+
+def func_names(module: Any) -> list[str]:
+    from xdsl.dialects import func
+
+    return [o.sym_name.data for o in module.body.ops if isinstance(o, func.FuncOp)]
+
+
+def foreign_uses(module: Any) -> list[str]:
+    """direct oracle: `func.func` is isolated from above — operations of a function body whose operand is neither
+    an argument of that body nor the result of an operation of that body (one text line per offending op)"""
+    from xdsl.dialects import func
+    from xdsl.ir import Operation
+
+    out = []
+    for f in module.body.ops:
+        if not isinstance(f, func.FuncOp) or not f.body.blocks:
+            continue
+        blk = f.body.block
+        for o in blk.ops:
+            for x in o.operands:
+                owner = x.owner                         # the defining operation, or the block of a block argument
+                if owner is blk or (isinstance(owner, Operation) and owner.parent is blk):
+                    continue
+                w = owner if isinstance(owner, Operation) else owner.parent_op()
+                while w is not None and not isinstance(w, func.FuncOp):
+                    w = w.parent_op()
+                out.append(f"@{f.sym_name.data}: {o.name} uses a value of "
+                           + ("@" + w.sym_name.data if w is not None else "a detached operation"))
+                break
+    return out
 
 
 def clean(s: str) -> str:
     return s.replace(" ", "").replace(";", ",").replace("\n", "") or "_"
 
 
-def eg_text(module: Any) -> str:
-    """e-graph protocol text (XdslModel/EGraph.lean) of @main; ids: block args, then results in block order"""
+def eg_text(module: Any, fname: str = "main") -> str:
+    """e-graph protocol text (XdslModel/EGraph.lean) of @fname; ids: block args, then results in block order"""
     from xdsl.dialects import equivalence, func
     from xdsl.dialects.builtin import IntAttr
 
-    blk = main_block(module)
+    blk = main_block(module, fname)
     ids: dict[Any, int] = {}
     for a in blk.args:
         ids[a] = len(ids)
@@ -241,6 +293,9 @@ def eg_text(module: Any) -> str:
             raise miniir.Unsupported("cost attribute")
         return str(a.data)
 
+    for o in list(body) + [blk.last_op]:
+        if any(x not in ids for x in o.operands):
+            raise miniir.Unsupported("operand defined outside the function body")
     for o in body:
         args = " ".join(str(ids[x]) for x in o.operands)
         r = ids[o.results[0]]
@@ -308,42 +363,74 @@ def dict_token(costs: dict[str, int] | None) -> str:
     return ",".join(f"{k}={v}" for k, v in sorted(costs.items())) if costs else "-"
 
 
+class GeneratorReject(Exception):
+    """the generated text is not an input of the pipeline (parser / serialiser refuses the SOURCE)"""
+
+
+def case_funcs(case: dict[str, Any]) -> dict[str, list[str]]:
+    """function name -> argument types (cases written before the multi-function leg have only @main)"""
+    return case.get("funcs") or {"main": case["arg_types"]}
+
+
 def run_pipeline(case: dict[str, Any]) -> dict[str, Any]:
-    """the real pipeline on one case; every stage observed as e-graph text"""
+    """the real pipeline on one case (a module of one or more functions); every stage of every function
+    observed as e-graph text (`obs["fn"][name]["s0".."s4"]`)"""
     from xdsl.dialects.builtin import IntAttr
     from xdsl.transforms.apply_eqsat_pdl_interp import apply_eqsat_pdl_interp
     from xdsl.transforms.eqsat_add_costs import EqsatAddCostsPass
     from xdsl.transforms.eqsat_create_eclasses import EqsatCreateEclassesPass
     from xdsl.transforms.eqsat_extract import EqsatExtractPass
 
-    obs: dict[str, Any] = {"stage": "parse", "missing_checks": []}
-    ctx = mkctx()
-    m = parse(ctx, case["program"])
-    obs["src_sexp"] = miniir.serialize(m)
-    obs["s0"] = eg_text(m)
+    obs: dict[str, Any] = {"stage": "parse", "missing_checks": [], "fn": {}, "foreign": []}
+    try:
+        ctx = mkctx()
+        m = parse(ctx, case["program"])
+        names = func_names(m)
+        obs["names"] = names
+        obs["src_sexp"] = miniir.serialize(m)
+        for nm in names:
+            obs["fn"][nm] = {"s0": eg_text(m, nm)}
+    except Exception as e:  # noqa: BLE001
+        raise GeneratorReject(core.exc_name(e)) from e
+
+    def texts(key: str, strict: bool = False) -> None:
+        for nm in names:
+            try:
+                obs["fn"][nm][key] = eg_text(m, nm)
+            except miniir.Unsupported as e:
+                if strict:
+                    raise
+                obs["fn"][nm][key] = None
+                obs["unsupported"] = str(e)
+
+    def isolated() -> bool:
+        obs["foreign"] = foreign_uses(m)
+        return not obs["foreign"]
+
     try:
         with cpu_guard(case.get("cpu_s", 8.0)):
             obs["stage"] = "create"
             EqsatCreateEclassesPass().apply(ctx, m)
+            if not isolated():
+                return obs
             m.verify()
-            obs["s1"] = eg_text(m)
+            texts("s1", strict=True)
             if case.get("rules"):
                 obs["stage"] = "convert"
                 rm, missing = build_rules(case["rules"])
                 obs["missing_checks"] = missing
                 obs["stage"] = "saturate"
                 apply_eqsat_pdl_interp(m, ctx, rm, case.get("iters", 3))
+                if not isolated():
+                    return obs
                 m.verify()
             obs["stage"] = "costs"
-            body = [o for o in main_block(m).ops if o.results and not is_class(o)]
-            for k, c in case.get("presets") or []:
-                if k < len(body):
-                    body[k].attributes["eqsat_cost"] = IntAttr(c)
-            try:
-                obs["s2"] = eg_text(m)
-            except miniir.Unsupported as e:
-                obs["s2"] = None
-                obs["unsupported"] = str(e)
+            if "main" in names:
+                body = [o for o in main_block(m).ops if o.results and not is_class(o)]
+                for k, c in case.get("presets") or []:
+                    if k < len(body):
+                        body[k].attributes["eqsat_cost"] = IntAttr(c)
+            texts("s2")
             if case.get("costs"):
                 f = tempfile.NamedTemporaryFile("w", suffix=".json", delete=False)
                 json.dump(case["costs"], f)
@@ -355,9 +442,15 @@ def run_pipeline(case: dict[str, Any]) -> dict[str, Any]:
             else:
                 EqsatAddCostsPass(default=case.get("default")).apply(ctx, m)
             m.verify()
-            obs["s3"] = eg_text(m) if obs["s2"] is not None else None
+            for nm in names:
+                obs["fn"][nm]["s3"] = None
+            if all(obs["fn"][nm]["s2"] is not None for nm in names):
+                texts("s3")
             obs["stage"] = "extract"
+            before = {nm: [id(o) for o in main_block(m, nm).ops] for nm in names}
             EqsatExtractPass().apply(ctx, m)
+            if not isolated():
+                return obs
             m.verify()
             obs["stage"] = "done"
     except Exception as e:  # noqa: BLE001
@@ -365,11 +458,14 @@ def run_pipeline(case: dict[str, Any]) -> dict[str, Any]:
         return obs
     obs["out_text"] = str(m)
     obs["leftover"] = any(is_class(o) for o in m.walk())
-    try:
-        obs["s4"] = eg_text(m)
-    except miniir.Unsupported as e:
-        obs["s4"] = None
-        obs["unsupported"] = str(e)
+    # did extraction have to re-order a block?  (survivors no longer in their relative order)
+    obs["reordered"] = []
+    for nm in names:
+        after = [id(o) for o in main_block(m, nm).ops]
+        keep = set(after)
+        if [i for i in before[nm] if i in keep] != after:
+            obs["reordered"].append(nm)
+    texts("s4")
     if not obs["leftover"]:
         try:
             obs["out_sexp"] = miniir.serialize(m)
@@ -382,9 +478,49 @@ def run_pipeline(case: dict[str, Any]) -> dict[str, Any]:
 # generators
 # ------------------------------------------------------------------------------------------------
 
-def gen_dense(rng: Any) -> dict[str, Any]:
-    """single-type integer expression DAG biased towards the left-hand sides of the rule library"""
-    T = rng.choice(INT_TYPES)
+COMM_OPS = ("addi", "muli", "andi", "ori", "xori")
+
+
+def func_text(name: str, T: str, args: list[str], lines: list[str], rets: list[str]) -> str:
+    sig = ", ".join(f"{a}: {T}" for a in args)
+    return (f"func.func @{name}(" + sig + ") -> (" + ", ".join([T] * len(rets)) + ") {\n" + "".join(l + "\n" for l in lines)
+            + "  func.return " + ", ".join(rets) + " : " + ", ".join([T] * len(rets)) + "\n}\n")
+
+
+def module_text(funcs: list[str]) -> str:
+    return "builtin.module {\n" + "".join(funcs) + "}\n"
+
+
+def split_functions(text: str) -> tuple[str, list[tuple[str, str]], str] | None:
+    """(header, [(name, chunk)], footer) of a generated module text (functions are `func.func @n(…) … {` … `}` at
+    column 0); None when the text does not have that shape"""
+    lines = text.split("\n")
+    if not lines or not lines[0].startswith("builtin.module"):
+        return None
+    chunks: list[tuple[str, str]] = []
+    i = 1
+    while i < len(lines) and lines[i].startswith("func.func @"):
+        j = i
+        while j < len(lines) and lines[j] != "}":
+            j += 1
+        if j >= len(lines):
+            return None
+        name = lines[i][len("func.func @"):].split("(")[0]
+        chunks.append((name, "\n".join(lines[i:j + 1]) + "\n"))
+        i = j + 1
+    footer = "\n".join(lines[i:])
+    if footer.strip() != "}":
+        return None
+    return lines[0] + "\n", chunks, footer
+
+
+def gen_dense(rng: Any, T: str | None = None, name: str = "main", mirror: bool = False) -> dict[str, Any]:
+    """single-type integer expression DAG biased towards the left-hand sides of the rule library.
+    `mirror`: some operations are stated again LATER in the block in the form a library rule produces from them
+    (operands swapped; x*2 as x<<1 and back; x+x as x*2; (x∘y)∘z as x∘(y∘z); x*y+x*z as x*(y+z)), so that the
+    rewriter finds the operation it is about to create already present behind the matched root (hash-cons reuse
+    of a later operation) and extraction has to re-order the block; the rules concerned are returned as `must_rules`"""
+    T = T or rng.choice(INT_TYPES)
     w = proggen.width(T)
     nargs = rng.randint(1, 3)
     args = [f"%a{i}" for i in range(nargs)]
@@ -398,8 +534,8 @@ def gen_dense(rng: Any) -> dict[str, Any]:
 
     consts: dict[int, str] = {}
 
-    def const(v: int) -> str:
-        if v in consts and rng.random() < 0.7:
+    def const(v: int, reuse: float = 0.7) -> str:
+        if v in consts and rng.random() < reuse:
             return consts[v]
         c = fresh("c")
         lines.append(f"  {c} = arith.constant {v} : {T}")
@@ -416,8 +552,20 @@ def gen_dense(rng: Any) -> dict[str, Any]:
 
     ops = (["addi"] * 4 + ["muli"] * 4 + ["subi"] * 2 + ["andi", "ori", "xori"] * 2
            + ["shli", "shrui", "shrsi", "divui", "divsi", "remui", "minsi", "maxui"])
+    if mirror:
+        ops = ["addi"] * 5 + ["muli"] * 5 + ["andi", "ori", "xori", "subi", "shli"]
     exprs: list[tuple[str, str, str]] = []
-    for _ in range(rng.randint(2, 9)):
+    defs: dict[str, tuple[str, str, str]] = {}
+
+    def emit(op: str, a: str, b: str) -> str:
+        v = fresh()
+        lines.append(f"  {v} = arith.{op} {a}, {b} : {T}")
+        pool.append(v)
+        exprs.append((op, a, b))
+        defs[v] = (op, a, b)
+        return v
+
+    for _ in range(rng.randint(2, 7 if mirror else 9)):
         op = rng.choice(ops)
         if exprs and rng.random() < 0.15:
             op, a, b = rng.choice(exprs)
@@ -426,30 +574,66 @@ def gen_dense(rng: Any) -> dict[str, Any]:
             a, b = operand(), operand()
             if rng.random() < 0.12:
                 b = a
+            if mirror and op == "muli" and rng.random() < 0.4:
+                b = const(2)
+            if mirror and op in ("addi", "muli") and rng.random() < 0.35 and any(d[0] == op for d in defs.values()):
+                a = rng.choice([v for v, d in defs.items() if d[0] == op])       # (x∘y)∘z
             if op in ("shli", "shrui", "shrsi") and rng.random() < 0.85:
                 b = const(rng.choice([0, 1, 1, 2, w - 1]))
             if op in ("divui", "divsi", "remui") and rng.random() < 0.7:
                 b = const(rng.choice([1, 2, 3, -1]))
-        v = fresh()
-        lines.append(f"  {v} = arith.{op} {a}, {b} : {T}")
-        pool.append(v)
-        exprs.append((op, a, b))
+        emit(op, a, b)
+    must: list[str] = []
+    prefer: list[tuple[str, str]] = []
+    live: list[str] = []
+    if mirror:
+        isconst = lambda v, k: consts.get(k) == v or any(l.startswith(f"  {v} = arith.constant {k} :") for l in lines)
+        for _ in range(rng.randint(1, 4)):
+            v = rng.choice([x for x in pool if x in defs])
+            op, a, b = defs[v]
+            cands: list[tuple[str, Any, tuple[str, str] | None]] = []   # rule, builder, (cheaper op, dearer op)
+            if op in COMM_OPS and a != b:
+                cands.append(("comm_" + op, lambda: emit(op, b, a), None))
+            if op == "muli" and isconst(b, 2) and w > 2:
+                cands.append(("mul2shl", lambda: emit("shli", a, const(1, 0.5)), ("shli", "muli")))
+            if op == "shli" and isconst(b, 1) and w > 2:
+                cands.append(("shl1mul", lambda: emit("muli", a, const(2, 0.5)), ("muli", "shli")))
+            if op == "addi" and a == b and w > 2:
+                cands.append(("addxx", lambda: emit("muli", a, const(2, 0.5)), ("muli", "addi")))
+            if op in ("addi", "muli") and defs.get(a, ("",))[0] == op:
+                x, y = defs[a][1], defs[a][2]
+                cands.append(("assoc_" + op, lambda: emit(op, x, emit(op, y, b)), None))
+            if op == "addi" and defs.get(a, ("",))[0] == "muli" and defs.get(b, ("",))[0] == "muli" and defs[a][1] == defs[b][1]:
+                x, y, z = defs[a][1], defs[a][2], defs[b][2]
+                cands.append(("distrib", lambda: emit("muli", x, emit("addi", y, z)), None))
+            if cands:
+                rule, make, pref = rng.choice(cands)
+                if rng.random() < 0.8:      # a live user of the original form IN FRONT OF the re-stated form
+                    live.append(emit(rng.choice(["addi", "xori", "subi", "ori"]), v, rng.choice(pool)))
+                make()
+                if rule not in must:
+                    must.append(rule)
+                if pref and pref[::-1] not in prefer:
+                    prefer.append(pref)
     if rng.random() < 0.3:   # a late constant that a rewrite may want to reuse
         const(rng.choice([0, 1, 2]))
     nret = rng.randint(1, 2)
     rets = [rng.choice(pool[nargs:] or pool) if rng.random() < 0.8 else rng.choice(pool) for _ in range(nret)]
     if rng.random() < 0.6:
         rets[0] = pool[-1]
-    sig = ", ".join(f"{a}: {T}" for a in args)
-    text = ("builtin.module {\nfunc.func @main(" + sig + ") -> (" + ", ".join([T] * nret) + ") {\n" + "\n".join(lines)
-            + "\n  func.return " + ", ".join(rets) + " : " + ", ".join([T] * nret) + "\n}\n}\n")
-    return {"program": text, "arg_types": [T] * nargs, "types": [T]}
+    if live and rng.random() < 0.9:
+        rets = rng.sample(live, min(len(live), rng.randint(1, 2))) + ([rng.choice(pool)] if rng.random() < 0.3 else [])
+    out = {"func": func_text(name, T, args, lines, rets), "arg_types": [T] * nargs, "T": T}
+    if must:
+        out["must_rules"] = [[T, r] for r in must]
+        out["prefer"] = prefer
+    return out
 
 
-def gen_multisite(rng: Any) -> dict[str, Any]:
+def gen_multisite(rng: Any, T: str | None = None, name: str = "main") -> dict[str, Any]:
     """the same redex `v op v` of a constant-creating rule at several sites, the operands also used
     elsewhere, and the created constant absent from the function (e.g. `(x-x) + x*y + (y-y)`)"""
-    T = rng.choice(INT_TYPES)
+    T = T or rng.choice(INT_TYPES)
     rule = rng.choice(sorted(c28_rules.CREATES_CONSTANT))
     op, created = c28_rules.CREATES_CONSTANT[rule]
     nargs = rng.randint(1, 3)
@@ -484,10 +668,27 @@ def gen_multisite(rng: Any) -> dict[str, Any]:
     for t in terms[1:]:
         acc = emit(rng.choice(["addi", "addi", "ori", "xori", "muli"]), acc, t)
     rets = [acc] + ([rng.choice(terms)] if rng.random() < 0.3 else [])
-    sig = ", ".join(f"{a}: {T}" for a in args)
-    text = ("builtin.module {\nfunc.func @main(" + sig + ") -> (" + ", ".join([T] * len(rets)) + ") {\n" + "\n".join(lines)
-            + "\n  func.return " + ", ".join(rets) + " : " + ", ".join([T] * len(rets)) + "\n}\n}\n")
-    return {"program": text, "arg_types": [T] * nargs, "types": [T], "must_rules": [[T, rule]]}
+    return {"func": func_text(name, T, args, lines, rets), "arg_types": [T] * nargs, "T": T, "must_rules": [[T, rule]]}
+
+
+def gen_constuser(rng: Any, T: str, name: str) -> dict[str, Any]:
+    """a small function built around the constants that library rules CREATE (0, 1, 2): in a module it is the
+    structurally identical twin, in ANOTHER function, of an operation a rewrite is about to build"""
+    nargs = rng.randint(1, 2)
+    args = [f"%a{i}" for i in range(nargs)]
+    lines: list[str] = []
+    pool = list(args)
+    k = 0
+    for v in rng.sample([0, 1, 2], rng.randint(1, 3)):
+        k += 1
+        lines.append(f"  %c{k} = arith.constant {v} : {T}")
+        c = f"%c{k}"
+        k += 1
+        lines.append(f"  %v{k} = arith.{rng.choice(['addi', 'subi', 'muli', 'xori', 'ori', 'shli'])} "
+                     + (f"{rng.choice(pool)}, {c}" if rng.random() < 0.7 else f"{c}, {rng.choice(pool)}") + f" : {T}")
+        pool.append(f"%v{k}")
+    rets = [pool[-1]] + ([rng.choice(pool)] if rng.random() < 0.3 else [])
+    return {"func": func_text(name, T, args, lines, rets), "arg_types": [T] * nargs, "T": T}
 
 
 def pure_config() -> Any:
@@ -501,16 +702,49 @@ def pure_config() -> Any:
 
 def gen_case(ctx: core.Ctx, g: Any, leg: str) -> dict[str, Any]:
     rng = ctx.rng
-    if leg == "rules" and rng.random() < 0.25:
-        case = gen_multisite(rng)
-        case["gen"] = "multisite"
+    r = rng.random()
+    must: list[list[str]] = []
+    if leg == "rules" and r < 0.2:
+        f = gen_multisite(rng)
+        kind = "multisite"
+    elif leg == "rules" and r < 0.44:
+        f = gen_dense(rng, mirror=True)
+        kind = "mirror"
     elif rng.random() < (0.6 if leg == "rules" else 0.4):
-        case = gen_dense(rng)
-        case["gen"] = "dense"
+        f = gen_dense(rng)
+        kind = "dense"
+    else:
+        f = None
+        kind = "proggen"
+    if f is not None:
+        funcs = [("main", f["func"])]
+        sigs = {"main": f["arg_types"]}
+        types = [f["T"]]
+        must = f.get("must_rules", [])
     else:
         p = g.program()
-        case = {"program": p["text"], "arg_types": p["arg_types"], "gen": "proggen",
-                "types": [t for t in INT_TYPES + ["f32", "f64"] if f": {t}" in p["text"]] or ["i32"]}
+        parts = split_functions(p["text"])
+        funcs = parts[1] if parts else []
+        sigs = {"main": p["arg_types"]}
+        types = [t for t in INT_TYPES + ["f32", "f64"] if f": {t}" in p["text"]] or ["i32"]
+    # a module of several functions: the e-graph state of the rewriter (hash-cons table, union-find, worklist) is
+    # shared by the whole module, the functions are not
+    if funcs and rng.random() < (0.3 if leg == "rules" else 0.15):
+        T = rng.choice([t for t in types if t in INT_TYPES] or ["i32"])
+        for i in range(rng.randint(1, 2)):
+            nm = f"f{i + 1}"
+            q = rng.random()
+            e = (gen_constuser(rng, T, nm) if q < 0.4 else gen_dense(rng, T, nm) if q < 0.8 or leg != "rules"
+                 else gen_multisite(rng, T, nm))
+            funcs.insert(rng.randint(0, len(funcs)), (nm, e["func"]))
+            sigs[nm] = e["arg_types"]
+            if T not in types:
+                types.append(T)
+            if leg == "rules" and e.get("must_rules") and rng.random() < 0.5:
+                must = must + [x for x in e["must_rules"] if x not in must]
+        kind += "+multi"
+    case: dict[str, Any] = {"program": module_text([t for _, t in funcs]) if funcs else p["text"],
+                            "arg_types": sigs["main"], "funcs": sigs, "types": types, "gen": kind}
     case["leg"] = leg
     case["cpu_s"] = 3.0 if ctx.tier == "quick" else 8.0
     case["default"] = rng.choice([1, 1, 1, 1, 0, 3])
@@ -518,10 +752,19 @@ def gen_case(ctx: core.Ctx, g: Any, leg: str) -> dict[str, Any]:
                       ["addi", "muli", "subi", "andi", "ori", "xori", "shli", "constant", "divui", "addf", "mulf"]}
                      if rng.random() < 0.5 else None)
     case["presets"] = ([[k, rng.choice([0, 1, 2, 3, 7, 20])] for k in range(40) if rng.random() < 0.4]
-                       if rng.random() < 0.35 else [])
+                       if rng.random() < (0.5 if kind.startswith("mirror") else 0.35) else [])
+    if kind.startswith("mirror") and f.get("prefer") and rng.random() < 0.7:
+        # make the re-stated (later) form the cheaper one, so that extraction picks an operation that sits behind
+        # users of its class
+        case["costs"] = case["costs"] or {}
+        for cheap, dear in f["prefer"]:
+            case["costs"]["arith." + cheap] = rng.choice([0, 1, 1])
+            case["costs"]["arith." + dear] = rng.choice([3, 5, 10])
     if leg == "rules":
         types = case["types"] if rng.random() < 0.97 else rng.sample(INT_TYPES, 2)   # 2 types: pdl_interp.switch_type
         T = [rng.choice(types)] if len(types) == 1 or rng.random() < 0.98 else types[:2]
+        if must and rng.random() < 0.9:
+            T = [must[0][0]]
         rules: list[list[str]] = []
         for t in T:
             R = sorted(c28_rules.rules_for(t))
@@ -531,7 +774,7 @@ def gen_case(ctx: core.Ctx, g: Any, leg: str) -> dict[str, Any]:
             pick = rng.sample(rel, min(len(rel), k)) if rng.random() < 0.8 else []
             pick += [nm for nm in rng.sample(R, k) if nm not in pick][: max(0, k - len(pick))]
             rules += [[t, nm] for nm in pick]
-        must = case.pop("must_rules", [])
+        must = [x for x in must if x[1] in c28_rules.rules_for(x[0])]
         if must:
             extra = [r for r in rules if r not in must][: rng.choice([0, 0, 1, 2, 4])]
             rules = must + extra
@@ -575,6 +818,13 @@ REGRESSION_CASES: list[dict[str, Any]] = [
                    "  %res = arith.muli %x, %c2 : index\n  func.return %res : index\n}\n}\n",
         "arg_types": ["index"], "types": ["index"], "leg": "norule", "gen": "regression", "default": 1, "costs": None,
         "presets": [], "rules": []},
+    {   # two functions; `x - x -> 0` fires in @main while the only `0` of the module sits in @f1
+        "program": "builtin.module {\nfunc.func @main(%a0: i32, %a1: i32) -> (i32) {\n  %v1 = arith.muli %a0, %a1 : i32\n"
+                   "  %v2 = arith.subi %v1, %v1 : i32\n  %v3 = arith.addi %v2, %a1 : i32\n  func.return %v3 : i32\n}\n"
+                   "func.func @f1(%a0: i32) -> (i32) {\n  %c1 = arith.constant 0 : i32\n  %v2 = arith.subi %c1, %a0 : i32\n"
+                   "  func.return %v2 : i32\n}\n}\n",
+        "arg_types": ["i32", "i32"], "funcs": {"main": ["i32", "i32"], "f1": ["i32"]}, "types": ["i32"], "leg": "rules",
+        "gen": "regression", "default": 1, "costs": None, "presets": [], "rules": [["i32", "subxx"]], "iters": 3},
 ]
 
 
@@ -585,18 +835,18 @@ REGRESSION_CASES: list[dict[str, Any]] = [
 FUEL = 100000
 
 
-def sem_lines(sexp: str, arg_types: list[str], vecs: list[list[Any]]) -> list[str]:
-    return ["prog " + sexp] + ["run %d main " % FUEL + " ".join(miniir.arg_text(t, v) for t, v in zip(arg_types, vec))
+def sem_lines(sexp: str, fname: str, arg_types: list[str], vecs: list[list[Any]]) -> list[str]:
+    return ["prog " + sexp] + [f"run {FUEL} {fname} " + " ".join(miniir.arg_text(t, v) for t, v in zip(arg_types, vec))
                                for vec in vecs]
 
 
-def compare_on_sem(ctx: core.Ctx, items: list[tuple[dict, dict, list[list[Any]]]]) -> list[tuple[dict, dict, list[Any], str, str]]:
-    """items: (case, obs, input vectors).  Returns the differing (case, obs, vec, src_out, out_out)."""
+def compare_on_sem(ctx: Any, items: list[tuple[dict, dict, str, list[list[Any]]]]) -> list[tuple[dict, dict, str, list[Any], str, str]]:
+    """items: (case, obs, function name, input vectors).  Returns the differing (case, obs, fname, vec, src_out, out_out)."""
     lines: list[str] = []
     index: list[tuple[int, str, int]] = []
-    for i, (case, obs, vecs) in enumerate(items):
+    for i, (case, obs, fname, vecs) in enumerate(items):
         for which in ("src_sexp", "out_sexp"):
-            ls = sem_lines(obs[which], case["arg_types"], vecs)
+            ls = sem_lines(obs[which], fname, case_funcs(case)[fname], vecs)
             for j, l in enumerate(ls):
                 lines.append(l)
                 index.append((i, which, j - 1))
@@ -609,7 +859,7 @@ def compare_on_sem(ctx: core.Ctx, items: list[tuple[dict, dict, list[list[Any]]]
             continue
         res[key] = o
     bad = []
-    for i, (case, obs, vecs) in enumerate(items):
+    for i, (case, obs, fname, vecs) in enumerate(items):
         for j, vec in enumerate(vecs):
             a, b = res[(i, "src_sexp", j)], res[(i, "out_sexp", j)]
             kind = a.split(" ")[0]
@@ -618,23 +868,23 @@ def compare_on_sem(ctx: core.Ctx, items: list[tuple[dict, dict, list[list[Any]]]
             if kind != "ok":
                 continue   # ub / unsupported / fuel in the source: MLIR does not define the result
             ctx.disagreements_checked += 1
-            if case["leg"] == "norule" or obs.get("alternatives", 0) > 0:
-                ctx.nt((case["leg"], case["program"], json.dumps(case.get("rules")), json.dumps(case.get("costs")),
+            if case["leg"] == "norule" or obs["fn"][fname].get("alternatives", 0) > 0:
+                ctx.nt((case["leg"], case["program"], fname, json.dumps(case.get("rules")), json.dumps(case.get("costs")),
                         json.dumps(case.get("presets")), case.get("default"), tuple(map(repr, vec))))
             if a != b:
-                bad.append((case, obs, vec, a, b))
+                bad.append((case, obs, fname, vec, a, b))
     return bad
 
 
-def still_differs(ctx: core.Ctx, case: dict, vec: list[Any]) -> bool:
+def still_differs(ctx: core.Ctx, case: dict, fname: str, vec: list[Any]) -> bool:
     try:
         obs = run_pipeline(case)
     except Exception:  # noqa: BLE001
         return False
-    if "out_sexp" not in obs:
+    if "out_sexp" not in obs or fname not in obs["fn"]:
         return False
     try:
-        return bool(compare_on_sem(_Quiet(ctx), [(case, obs, [vec])]))
+        return bool(compare_on_sem(_Quiet(ctx), [(case, obs, fname, [vec])]))
     except core.InfraError:
         return False
 
@@ -659,21 +909,40 @@ class _Quiet:
         pass
 
 
-def shrink_case(ctx: core.Ctx, case: dict, vec: list[Any]) -> dict:
+def shrink_generic(ctx: core.Ctx, case: dict, pred: Any, budget: int = 60, keep_fn: str | None = None) -> dict:
+    """greedy shrinking of a pipeline case over rules, cost settings, whole functions and statements; `pred(case)`
+    says whether the candidate still shows the failure"""
     case = dict(case)
-    budget = [60]
+    left = [budget]
 
     def fails(c: dict) -> bool:
-        if budget[0] <= 0:
+        if left[0] <= 0:
             return False
-        budget[0] -= 1
-        return still_differs(ctx, c, vec)
+        left[0] -= 1
+        try:
+            return bool(pred(c))
+        except Exception:  # noqa: BLE001
+            return False
 
+    if ctx.time_left() <= 30:
+        return case
     if len(case.get("rules") or []) > 1:
         case["rules"] = core.shrink_list(case["rules"], lambda rs: fails({**case, "rules": rs}), max_steps=25)
     for k in ("presets", "costs"):
         if case.get(k) and fails({**case, k: [] if k == "presets" else None}):
             case[k] = [] if k == "presets" else None
+    parts = split_functions(case["program"])
+    if parts and len(parts[1]) > 1:
+        head, chunks, foot = parts
+        for nm, _ in list(chunks):
+            if nm == keep_fn or len(chunks) == 1:
+                continue
+            rest = [c for c in chunks if c[0] != nm]
+            cand = {**case, "program": head + "".join(t for _, t in rest) + foot,
+                    "funcs": {k: v for k, v in case_funcs(case).items() if k != nm}}
+            if "main" in cand["funcs"] or "main" not in case_funcs(case):
+                if fails(cand):
+                    case, chunks = cand, rest
     lines = case["program"].split("\n")
     body = [i for i, l in enumerate(lines) if " = arith." in l]
     for i in reversed(body):
@@ -688,10 +957,14 @@ def shrink_case(ctx: core.Ctx, case: dict, vec: list[Any]) -> dict:
     return case
 
 
-def public_case(case: dict, vec: list[Any] | None = None) -> dict:
+def public_case(case: dict, vec: list[Any] | None = None, fname: str | None = None) -> dict:
     out = {k: case.get(k) for k in ("program", "arg_types", "rules", "iters", "default", "costs", "presets", "leg")}
+    if len(case_funcs(case)) > 1 or "main" not in case_funcs(case):
+        out["funcs"] = case_funcs(case)
     if vec is not None:
         out["args"] = [repr(v) for v in vec]
+        if fname not in (None, "main"):
+            out["function"] = fname
     return out
 
 
@@ -699,24 +972,44 @@ def public_case(case: dict, vec: list[Any] | None = None) -> dict:
 # the two legs + stage-wise correspondence
 # ------------------------------------------------------------------------------------------------
 
-def classify_and_report(ctx: core.Ctx, case: dict, obs: dict, vec: list[Any], a: str, b: str) -> None:
-    small = shrink_case(ctx, case, vec) if ctx.time_left() > 30 else case
+def classify_and_report(ctx: core.Ctx, case: dict, obs: dict, fname: str, vec: list[Any], a: str, b: str) -> None:
+    small = shrink_generic(ctx, case, lambda c: still_differs(ctx, c, fname, vec), keep_fn=fname)
     sobs = run_pipeline(small)
+    s4 = sobs["fn"].get(fname, {}).get("s4")
     if sobs.get("missing_checks"):
-        ctx.fail(SITE_CONVERT, SIG_ATTR, public_case(small, vec),
+        ctx.fail(SITE_CONVERT, SIG_ATTR, public_case(small, vec, fname),
                  "convert-pdl-to-pdl-interp produced a matcher that never compares the constant attribute(s) "
                  f"{sobs['missing_checks']} the pattern matches on, so the rule fires for every constant; the "
                  "extracted program returns different results", b, a)
-    elif sobs.get("s4") and not eg_ordered(sobs["s4"]):
-        ctx.fail(SITE_EXTRACT, SIG_ORDER, public_case(small, vec),
+    elif s4 and not eg_ordered(s4):
+        ctx.fail(SITE_EXTRACT, SIG_ORDER, public_case(small, vec, fname),
                  "eqsat-extract left an operation before the definition of one of its operands (the e-graph is not "
                  "kept in dominance order); the extracted function cannot be executed\n" + sobs.get("out_text", ""), b, a)
     elif case["leg"] == "norule":
-        ctx.fail(SITE_EXTRACT, SIG_RESULT_NORULE, public_case(small, vec),
+        ctx.fail(SITE_EXTRACT, SIG_RESULT_NORULE, public_case(small, vec, fname),
                  "the no-rule round trip returned different results\n" + sobs.get("out_text", ""), b, a)
     else:
-        ctx.fail(SITE_APPLY, SIG_RESULT_RULES, public_case(small, vec),
+        ctx.fail(SITE_APPLY, SIG_RESULT_RULES, public_case(small, vec, fname),
                  "saturation with sound rules + extraction returned different results\n" + sobs.get("out_text", ""), b, a)
+
+
+def report_foreign(ctx: core.Ctx, case: dict, obs: dict) -> None:
+    """a function body refers to a value of another function (or of an erased operation): it cannot be executed"""
+    stage = obs["stage"]
+    if any(f.kind == "failing-input" and f.signature == SIG_FOREIGN for f in ctx.failures):
+        return
+
+    def same(c: dict) -> bool:
+        o = run_pipeline(c)
+        return bool(o.get("foreign")) and o["stage"] == stage
+
+    small = shrink_generic(ctx, case, same, budget=50)
+    sobs = run_pipeline(small)
+    site = {"create": SITE_CREATE, "saturate": SITE_APPLY, "extract": SITE_EXTRACT}.get(stage, SITE_APPLY)
+    ctx.fail(site, SIG_FOREIGN, public_case(small),
+             f"after the `{stage}` stage an operation of one function uses a value that is not defined in that function "
+             "(func.func is isolated from above): the function cannot be executed, so it does not return the results "
+             "of the source", sobs.get("foreign") or obs.get("foreign"), [])
 
 
 def exception_key(obs: dict) -> tuple[str, str] | None:
@@ -727,7 +1020,7 @@ def exception_key(obs: dict) -> tuple[str, str] | None:
 
 
 def judge_exception(ctx: core.Ctx, case: dict, obs: dict) -> None:
-    """a sound rule set made the pipeline raise on a function the no-rule pipeline handles: failing input"""
+    """a sound rule set made the pipeline raise on a module the no-rule pipeline handles: failing input"""
     key = exception_key(obs)
     if key is None or any(f.kind == "failing-input" and f.signature == sig_exception(*key) for f in ctx.failures):
         if key is not None:
@@ -739,126 +1032,146 @@ def judge_exception(ctx: core.Ctx, case: dict, obs: dict) -> None:
         return
     if "exception" in base:
         return                      # not a valid input for the pipeline at all
-    budget = [40]
 
     def same(c: dict) -> bool:
-        if budget[0] <= 0:
+        if exception_key(run_pipeline(c)) != key:
             return False
-        budget[0] -= 1
-        try:
-            o = run_pipeline(c)
-        except Exception:  # noqa: BLE001
-            return False
-        if exception_key(o) != key:
-            return False
-        try:
-            return "exception" not in run_pipeline({**c, "rules": [], "leg": "norule"})
-        except Exception:  # noqa: BLE001
-            return False
+        return "exception" not in run_pipeline({**c, "rules": [], "leg": "norule"})
 
-    small = dict(case)
-    if ctx.time_left() > 30:
-        if len(small["rules"]) > 1:
-            small["rules"] = core.shrink_list(small["rules"], lambda rs: same({**small, "rules": rs}), max_steps=12)
-        for k in ("presets", "costs"):
-            if small.get(k) and same({**small, k: [] if k == "presets" else None}):
-                small[k] = [] if k == "presets" else None
-        lines = small["program"].split("\n")
-        for i in reversed([i for i, l in enumerate(lines) if " = arith." in l]):
-            cand = "\n".join(l for j, l in enumerate(lines) if j != i)
-            try:
-                parse(mkctx(), cand)
-            except Exception:  # noqa: BLE001
-                continue
-            if same({**small, "program": cand}):
-                lines = cand.split("\n")
-                small["program"] = cand
+    small = shrink_generic(ctx, case, same, budget=40)
     sobs = run_pipeline(small)
     ctx.fail(STAGE_SITE[key[0]], sig_exception(*key), public_case(small),
-             "with a sound rule set the pipeline raises on a valid function (create-eclasses, add-costs and extract "
+             "with a sound rule set the pipeline raises on a valid module (create-eclasses, add-costs and extract "
              "succeed on it without rules); the exception is not one of the documented unsupported cases "
              "(pdl_interp.switch_type across element types, CPU guard)",
              sobs.get("exception"), "no exception")
 
 
+def single_function_cases(case: dict) -> list[dict]:
+    """the functions of a multi-function case as modules of their own (same rules and costs)"""
+    parts = split_functions(case["program"])
+    if not parts or len(parts[1]) < 2:
+        return []
+    head, chunks, foot = parts
+    return [{**case, "program": head + t + foot, "funcs": {nm: case_funcs(case)[nm]}, "arg_types": case_funcs(case)[nm],
+             "gen": "split", "presets": case.get("presets") if nm == "main" else []} for nm, t in chunks]
+
+
 def run_cases(ctx: core.Ctx, cases: list[dict], g: Any) -> None:
-    items: list[tuple[dict, dict, list[list[Any]]]] = []
+    items: list[tuple[dict, dict, str, list[list[Any]]]] = []
     corr: list[tuple[str, str, str, dict]] = []   # (model line, expected canonical text, stage, case)
-    for case in cases:
+    queue = list(cases)
+    while queue:
+        case = queue.pop(0)
         if ctx.time_left() < 25:
             break
         leg = case["leg"]
         try:
             obs = run_pipeline(case)
-        except Exception as e:  # noqa: BLE001  (generator produced something the parser / serialiser refuses)
-            ctx.count(f"{leg}.generator_rejected.{core.exc_name(e)}")
+        except GeneratorReject as e:   # the generator produced something the parser / serialiser refuses
+            ctx.count(f"{leg}.generator_rejected.{e}")
             continue
+        names = obs["names"]
+        multi = len(names) > 1
         ctx.programs += 1
         ctx.count(f"{leg}.programs.{case['gen']}")
+        if multi:
+            ctx.count(f"{leg}.modules_with_several_functions")
         if obs.get("missing_checks"):
             # direct oracle of the conversion the documented pipeline relies on
             ctx.fail(SITE_CONVERT, SIG_ATTR, public_case({**case, "presets": [], "costs": None}),
                      "convert-pdl-to-pdl-interp produced a matcher that never compares the constant attribute(s) "
                      f"{obs['missing_checks']} which the pattern matches on", obs["missing_checks"], [])
+        if obs.get("foreign"):
+            ctx.count(f"{leg}.foreign_value.{obs['stage']}")
+            report_foreign(ctx, case, obs)
+            continue
         if "exception" in obs:
             ctx.count(f"{leg}.pipeline_exception.{obs['exception']}")
             # the modelled stages are total in the model (create, costs) or raise exactly when an erase is
             # unsafe (extract): an exception there is compared with the model like any other observation
             stage = obs["stage"]
             dflt = case["default"] if case.get("default") is not None else "-"
-            if stage == "create":
-                corr.append(("create " + obs["s0"], "raise", "create", case))
-            elif stage == "costs" and obs.get("s2"):
-                corr.append((f"costs {dflt} {dict_token(case.get('costs'))} " + obs["s2"], "raise", "costs", case))
-            elif stage == "extract" and obs.get("s3"):
-                corr.append(("extract " + obs["s3"], "raise", "extract", case))
+            if not multi:
+                F = obs["fn"][names[0]]
+                if stage == "create":
+                    corr.append(("create " + F["s0"], "raise", "create", case))
+                elif stage == "costs" and F.get("s2"):
+                    corr.append((f"costs {dflt} {dict_token(case.get('costs'))} " + F["s2"], "raise", "costs", case))
+                elif stage == "extract" and F.get("s3"):
+                    corr.append(("extract " + F["s3"], "raise", "extract", case))
+            elif leg == "norule" and case["gen"] != "split" and not any(u in obs["exception"] for u in UNSUPPORTED_EXC):
+                # which function is it?  every function goes through the pipeline (and the model) alone; when none
+                # of them raises, it is the module of several functions that the no-rule pipeline cannot handle
+                singles = single_function_cases(case)
+                alone = []
+                for c in singles:
+                    try:
+                        alone.append("exception" in run_pipeline(c))
+                    except GeneratorReject:
+                        alone.append(True)
+                if singles and not any(alone):
+                    key = exception_key(obs)
+                    ctx.fail(STAGE_SITE.get(key[0], SITE_CREATE),
+                             f"{key[0]} raises {key[1]} on a module of several functions without rules (every function alone passes)",
+                             public_case(case), "the no-rule pipeline raises on a valid module", obs["exception"], "no exception")
+                else:
+                    queue = singles + queue
             if leg == "rules" and stage in STAGE_SITE and not any(u in obs["exception"] for u in UNSUPPORTED_EXC):
                 judge_exception(ctx, case, obs)
             continue
         # ---- structure
-        s1, s2, s3, s4 = obs.get("s1"), obs.get("s2"), obs.get("s3"), obs.get("s4")
-        if s2:
-            _, nodes, _ = parse_eg(s2)
-            obs["alternatives"] = sum(len(n) - 4 for n in nodes if n[0] == "c" and len(n) > 4)
-            ctx.count(f"{leg}.saturated_classes_with_alternatives", sum(1 for n in nodes if n[0] == "c" and len(n) > 4))
+        for nm in names:
+            F = obs["fn"][nm]
+            if F.get("s2"):
+                _, nodes, _ = parse_eg(F["s2"])
+                F["alternatives"] = sum(len(n) - 4 for n in nodes if n[0] == "c" and len(n) > 4)
+                ctx.count(f"{leg}.saturated_classes_with_alternatives", sum(1 for n in nodes if n[0] == "c" and len(n) > 4))
+        if obs["reordered"]:
+            ctx.count(f"{leg}.extraction_reordered_a_block", len(obs["reordered"]))
         if obs["leftover"]:
             ctx.count(f"{leg}.leftover_class")
-            uncosted = s3 is None or any(n[0] == "o" and n[4] == "-" for n in parse_eg(s3)[1])
+            uncosted = any(obs["fn"][nm].get("s3") is None or any(n[0] == "o" and n[4] == "-" for n in parse_eg(obs["fn"][nm]["s3"])[1])
+                           for nm in names)
             if not uncosted:
                 ctx.fail(SITE_COSTS, SIG_LEFTOVER, public_case(case),
                          "every operation has an eqsat_cost but an e-class kept no min_cost_index / was not extracted\n"
-                         + obs["out_text"], s3, None)
+                         + obs["out_text"], {nm: obs["fn"][nm]["s3"] for nm in names}, None)
             continue
-        if s4 is not None and not eg_ordered(s4) and "out_sexp" in obs:
-            pass   # reported through the result comparison below (source not ub) with a shrunk case
-        if leg == "norule" and s4 is not None:
-            want = eg_dce(obs["s0"])
-            if canon(s4) != want:
-                ctx.fail(SITE_EXTRACT, SIG_DROPPED, public_case(case),
-                         "the no-rule round trip is not the source minus dead code", canon(s4), want)
-        # ---- correspondence with the Lean model, stage by stage (inputs are the real stage inputs)
-        corr.append(("create " + obs["s0"], canon(s1), "create", case))
-        if s2 and s3:
-            corr.append((f"costs {case['default'] if case.get('default') is not None else '-'} {dict_token(case.get('costs'))} " + s2,
-                         canon(s3), "costs", case))
-            if s4 is not None:
-                corr.append(("extract " + s3, canon(s4), "extract", case))
-        if leg == "norule" and s4 is not None and not case.get("presets"):
-            corr.append((f"norule {case['default']} {dict_token(case.get('costs'))} " + obs["s0"], canon(s4), "norule", case))
+        for nm in names:
+            F = obs["fn"][nm]
+            s0, s1, s2, s3, s4 = F["s0"], F.get("s1"), F.get("s2"), F.get("s3"), F.get("s4")
+            # (an output that is not in def-before-use order is reported through the result comparison below
+            #  — source not ub — with a shrunk case)
+            if leg == "norule" and s4 is not None:
+                want = eg_dce(s0)
+                if canon(s4) != want:
+                    ctx.fail(SITE_EXTRACT, SIG_DROPPED, public_case(case),
+                             f"the no-rule round trip of @{nm} is not the source minus dead code", canon(s4), want)
+            # ---- correspondence with the Lean model, stage by stage (inputs are the real stage inputs)
+            corr.append(("create " + s0, canon(s1), "create", case))
+            if s2 and s3:
+                corr.append((f"costs {case['default'] if case.get('default') is not None else '-'} {dict_token(case.get('costs'))} " + s2,
+                             canon(s3), "costs", case))
+                if s4 is not None:
+                    corr.append(("extract " + s3, canon(s4), "extract", case))
+            if leg == "norule" and s4 is not None and not (case.get("presets") and nm == "main"):
+                corr.append((f"norule {case['default']} {dict_token(case.get('costs'))} " + s0, canon(s4), "norule", case))
         if "out_sexp" in obs:
-            items.append((case, obs, g.inputs(case["arg_types"], 5 if ctx.tier == "thorough" else 4)))
+            for nm in names:
+                items.append((case, obs, nm, g.inputs(case_funcs(case)[nm], 5 if ctx.tier == "thorough" else 4 if not multi else 3)))
         else:
             ctx.count(f"{leg}.unsupported_output")
     # ---- results on the reference semantics
     bad = compare_on_sem(ctx, items)
     seen: set[str] = set()
-    for case, obs, vec, a, b in bad:
+    for case, obs, fname, vec, a, b in bad:
         ctx.count(f"{case['leg']}.result_differs")
         key = case["program"] + json.dumps(case.get("rules"))
         if key in seen or len(seen) >= 6:
             continue
         seen.add(key)
-        classify_and_report(ctx, case, obs, vec, a, b)
+        classify_and_report(ctx, case, obs, fname, vec, a, b)
     # ---- model
     if corr:
         outs = ctx.model("egraph", [c[0] for c in corr])
@@ -869,6 +1182,244 @@ def run_cases(ctx: core.Ctx, cases: list[dict], g: Any) -> None:
                 ctx.count(f"correspondence.{stage}.differs")
                 ctx.mismatch(f"correspondence:C28/egraph.{stage}", {"line": line, "case": public_case(case)}, want, canon(out),
                              f"real {stage} output differs from the Lean model on the same stage input")
+
+
+# ------------------------------------------------------------------------------------------------
+# restore_dominance_order (the re-ordering that ends eqsat-extract) on blocks of its own
+# ------------------------------------------------------------------------------------------------
+# A block is `{"nargs": k, "ops": [[id, …], …], "nested": {"j": [id, …]}}`: the operations in BLOCK order with their
+# operand ids (`< k`: block argument, `k + j`: the result of the operation at position j — wherever that is), and
+# for some operations the ids used by an operation nested in a region of theirs.
+
+def reorder_deps(spec: dict, j: int) -> list[int]:
+    """positions of the operations `_dependencies` returns for the op at position j (walk order, duplicates kept)"""
+    k = spec["nargs"]
+    return [i - k for i in list(spec["ops"][j]) + list((spec.get("nested") or {}).get(str(j), [])) if i >= k and i - k != j]
+
+
+def reorder_acyclic(spec: dict) -> bool:
+    n = len(spec["ops"])
+    state = [0] * n
+
+    def visit(j: int) -> bool:
+        if state[j] == 1:
+            return False
+        if state[j] == 2:
+            return True
+        state[j] = 1
+        ok = all(visit(d) for d in reorder_deps(spec, j))
+        state[j] = 2
+        return ok
+
+    return all(visit(j) for j in range(n))
+
+
+def reorder_real(spec: dict) -> list[int] | str:
+    """build the block from real operations, run the real `restore_dominance_order`, return the new order as
+    original positions (−1: an operation that was not in the block)"""
+    from xdsl.dialects import arith, test
+    from xdsl.dialects.builtin import i32
+    from xdsl.ir import Block, Region
+    from xdsl.transforms.eqsat_extract import restore_dominance_order
+
+    k, ops, nested = spec["nargs"], spec["ops"], spec.get("nested") or {}
+    blk = Block(arg_types=[i32] * max(k, 1))
+    ph = blk.args[0]
+    made: list[Any] = []
+    for j, a in enumerate(ops):
+        if str(j) in nested:
+            inner = test.TestOp([ph] * len(nested[str(j)]), [i32])
+            made.append(test.TestOp([ph] * len(a), [i32], regions=[Region(Block([inner]))]))
+        elif len(a) == 2:
+            made.append((arith.AddiOp, arith.MuliOp, arith.SubiOp)[j % 3](ph, ph))
+        else:
+            made.append(test.TestOp([ph] * len(a), [i32]))
+    val = lambda i: blk.args[i] if i < k else made[i - k].results[0]
+    for j, a in enumerate(ops):
+        made[j].operands = [val(i) for i in a]
+        if str(j) in nested:
+            made[j].regions[0].block.first_op.operands = [val(i) for i in nested[str(j)]]
+    blk.add_ops(made)
+    try:
+        restore_dominance_order(blk)
+    except Exception as e:  # noqa: BLE001
+        return core.exc_name(e)
+    pos = {id(o): j for j, o in enumerate(made)}
+    return [pos.get(id(o), -1) for o in blk.ops]
+
+
+def reorder_line(spec: dict) -> str:
+    k = spec["nargs"]
+    parts = [str(k)]
+    for j, a in enumerate(spec["ops"]):
+        ids = list(a) + list((spec.get("nested") or {}).get(str(j), []))
+        parts.append(" ".join(["o", str(k + j), "test.op", "k", "-"] + [str(i) for i in ids]))
+    parts.append("r")
+    return "extract " + " ; ".join(parts)
+
+
+def reorder_model_order(spec: dict, out: str) -> list[int] | str:
+    if out in ("raise", "bad-op"):
+        return out
+    return [int(n[1]) - spec["nargs"] for n in parse_eg(out)[1]]
+
+
+def reorder_judge(spec: dict, got: list[int] | str) -> tuple[str, str] | None:
+    """direct oracle: (signature, description) or None"""
+    n = len(spec["ops"])
+    if isinstance(got, str):
+        return ("restore_dominance_order raises " + got, "the re-ordering raised on a block")
+    if sorted(got) != list(range(n)):
+        return (SIG_REORDER_PERM, "operations were lost, duplicated or added by the re-ordering")
+    if reorder_acyclic(spec):
+        pos = {j: p for p, j in enumerate(got)}
+        for j in range(n):
+            for d in reorder_deps(spec, j):
+                if pos[d] >= pos[j]:
+                    return (SIG_REORDER_ORDER,
+                            f"the operation at original position {j} ends up at {pos[j]}, before the operation (original "
+                            f"position {d}, now {pos[d]}) that defines one of its operands; the dependency graph is acyclic")
+    return None
+
+
+def reorder_enum(n: int, ordered_pairs: bool) -> Any:
+    """every DAG on n binary operations (operands: the block argument or an earlier node of a topological numbering;
+    as ordered pairs or as multisets) in every placement in the block"""
+    import itertools
+
+    def pairs(t: int) -> list[tuple[int, int]]:
+        rng_ = range(-1, t)
+        return [(x, y) for x in rng_ for y in rng_ if ordered_pairs or x <= y]
+
+    for dag in itertools.product(*[pairs(t) for t in range(n)]):
+        for perm in itertools.permutations(range(n)):      # perm[t] = position of topological node t
+            ops: list[list[int]] = [[] for _ in range(n)]
+            for t in range(n):
+                ops[perm[t]] = [0 if x < 0 else 1 + perm[x] for x in dag[t]]
+            yield {"nargs": 1, "ops": ops}
+
+
+def reorder_random(rng: Any) -> dict:
+    """random DAG (0–3 operands per operation, some nested uses) laid out by one of several disorder shapes: full
+    shuffle, a few operations hoisted in front of earlier ones / sunk, reversal, rotation; a small share is cyclic"""
+    n = rng.randint(3, 12)
+    k = rng.randint(1, 3)
+    dag: list[list[int]] = []
+    nested: dict[int, list[int]] = {}
+    chainy = rng.random() < 0.4
+    for t in range(n):
+        m = rng.choice([0, 1, 2, 2, 2, 3])
+        src = lambda: (-1 - rng.randrange(k)) if t == 0 or rng.random() < (0.15 if chainy else 0.4) else (
+            t - 1 - min(t - 1, int(rng.expovariate(0.8))) if chainy else rng.randrange(t))
+        dag.append([src() for _ in range(m)])
+        if rng.random() < 0.08:
+            nested[t] = [src() for _ in range(rng.randint(1, 2))]
+    shape = rng.choice(["shuffle", "hoist", "hoist", "hoist", "sink", "reverse", "rotate", "sorted"])
+    order = list(range(n))                   # order[p] = topological node at position p
+    if shape == "shuffle":
+        rng.shuffle(order)
+    elif shape in ("hoist", "sink"):
+        for _ in range(rng.randint(1, 3)):
+            a, b = sorted(rng.sample(range(n), 2))
+            if shape == "hoist":
+                order.insert(a, order.pop(b))
+            else:
+                order.insert(b, order.pop(a))
+    elif shape == "reverse":
+        order.reverse()
+    elif shape == "rotate":
+        r = rng.randrange(n)
+        order = order[r:] + order[:r]
+    perm = {t: p for p, t in enumerate(order)}
+    conv = lambda x: (-1 - x) if x < 0 else k + perm[x]
+    ops: list[list[int]] = [[] for _ in range(n)]
+    for t in range(n):
+        ops[perm[t]] = [conv(x) for x in dag[t]]
+    spec: dict[str, Any] = {"nargs": k, "ops": ops}
+    if nested:
+        spec["nested"] = {str(perm[t]): [conv(x) for x in v] for t, v in nested.items()}
+    if rng.random() < 0.06:                  # a back edge: cycles are left alone, nothing may be lost
+        a, b = rng.sample(range(n), 2)
+        spec["ops"][a] = list(spec["ops"][a]) + [k + b]
+        spec["ops"][b] = list(spec["ops"][b]) + [k + a]
+    return spec
+
+
+def reorder_shrink(spec: dict, sig: str) -> dict:
+    """drop operations (uses of a dropped result become uses of block argument 0) while the same oracle fails"""
+    def drop(s: dict, j: int) -> dict:
+        k = s["nargs"]
+        f = lambda i: i if i < k else (0 if i - k == j else (i - 1 if i - k > j else i))
+        out: dict[str, Any] = {"nargs": k, "ops": [[f(i) for i in a] for p, a in enumerate(s["ops"]) if p != j]}
+        ne = {str(int(p) - (1 if int(p) > j else 0)): [f(i) for i in v] for p, v in (s.get("nested") or {}).items() if int(p) != j}
+        if ne:
+            out["nested"] = ne
+        return out
+
+    changed = True
+    while changed and len(spec["ops"]) > 1:
+        changed = False
+        for j in reversed(range(len(spec["ops"]))):
+            cand = drop(spec, j)
+            v = reorder_judge(cand, reorder_real(cand))
+            if v is not None and v[0] == sig:
+                spec, changed = cand, True
+                break
+    return spec
+
+
+def run_reorder(ctx: core.Ctx) -> None:
+    """direct leg on `restore_dominance_order`: exhaustive small blocks + random larger ones; oracle (nothing lost,
+    every definition before its uses when the dependencies are acyclic) and correspondence with the model's topoSort"""
+    quick = ctx.tier == "quick"
+    specs: list[dict] = []
+    for n in (1, 2, 3, 4):
+        specs.extend(reorder_enum(n, ordered_pairs=True))
+    ctx.count("reorder.exhaustive_blocks_up_to_4_ops", len(specs))
+    if not quick and ctx.time_left() > 400:
+        before = len(specs)
+        specs.extend(reorder_enum(5, ordered_pairs=False))
+        ctx.count("reorder.exhaustive_blocks_5_ops_multiset_operands", len(specs) - before)
+    nrand = 2500 if quick else 40000
+    specs.extend(reorder_random(ctx.rng) for _ in range(nrand))
+    ctx.count("reorder.random_blocks", nrand)
+    lines: list[str] = []
+    gots: list[Any] = []
+    kept: list[dict] = []
+    reported: set[str] = set()
+    for spec in specs:
+        if ctx.time_left() < 15:
+            break
+        got = reorder_real(spec)
+        ctx.ev()
+        acyclic = reorder_acyclic(spec)
+        moved = not isinstance(got, str) and got != list(range(len(spec["ops"])))
+        ctx.count("reorder.acyclic.reordered" if acyclic and moved else "reorder.acyclic.already_ordered" if acyclic else "reorder.cyclic")
+        if moved:
+            ctx.nt(("reorder", json.dumps(spec, sort_keys=True)))
+        v = reorder_judge(spec, got)
+        if v is not None and v[0] not in reported:
+            reported.add(v[0])      # the enumeration is smallest-first; a random block is shrunk
+            small = reorder_shrink(spec, v[0])
+            sgot = reorder_real(small)
+            sv = reorder_judge(small, sgot) or v
+            ctx.fail(SITE_REORDER, sv[0], {"leg": "reorder", **small}, sv[1] + " — block: operations in block order with "
+                     "operand ids (ids below nargs are block arguments, nargs+j is the result of the operation at position j)",
+                     sgot, "a permutation of 0…n-1 in which every operation follows the operations defining its operands")
+        lines.append(reorder_line(spec))
+        gots.append(got)
+        kept.append(spec)
+    outs = ctx.model("egraph", lines) if lines else []
+    ctx.count("correspondence.reorder", len(lines))
+    for spec, got, line, out in zip(kept, gots, lines, outs):
+        want = reorder_model_order(spec, out)
+        if want != got:
+            ctx.count("correspondence.reorder.differs")
+            ctx.mismatch("correspondence:C28/egraph.topoSort", {"line": line, "case": {"leg": "reorder", **spec}}, got, want,
+                         "real restore_dominance_order differs from the Lean model's topoSort on the same block")
+            break
+    if kept:
+        ctx.sample({"reorder": next((s for s in kept[-50:] if s), kept[-1])})
 
 
 def run_merges(ctx: core.Ctx, g: Any, n: int) -> None:
@@ -886,7 +1437,8 @@ def run_merges(ctx: core.Ctx, g: Any, n: int) -> None:
     lines, wants, cases = [], [], []
     rng = ctx.rng
     for _ in range(n):
-        case = gen_dense(rng)
+        program = module_text([gen_dense(rng)["func"]])
+        case = {"program": program}
         xctx = mkctx()
         m = parse(xctx, case["program"])
         EqsatCreateEclassesPass().apply(xctx, m)
@@ -964,6 +1516,7 @@ def run(ctx: core.Ctx) -> None:
     ctx.lean()
     g = proggen.ProgGen(ctx.rng, pure_config())
     quick = ctx.tier == "quick"
+    run_reorder(ctx)
     rounds = 1 if quick else 30
     per_round = (140, 160) if quick else (260, 340)
     for r in range(rounds):
@@ -992,26 +1545,41 @@ def replay(ctx: core.Ctx, body: dict) -> int:
         print("model output:", ctx.model("egraph", [case["line"]])[0][:2000])
         print("recorded real observation:", body.get("impl_observation"))
         return 0
+    if case.get("leg") == "reorder":
+        got = reorder_real(case)
+        print("block (operations in block order, operand ids; ids <", case["nargs"], "are block arguments):", case["ops"],
+              "nested uses:", case.get("nested") or {})
+        print("restore_dominance_order → order of the original positions:", got)
+        print("model topoSort                                           :", reorder_model_order(case, ctx.model("egraph", [reorder_line(case)])[0]))
+        v = reorder_judge(case, got)
+        print("oracle:", v[0] + " — " + v[1] if v else "ok")
+        return 1 if v else 0
     case = {**case, "types": [], "gen": "replay"}
     obs = run_pipeline(case)
+    fname = case.get("function", "main")
     print("source:\n" + case["program"])
     print("rules:", case.get("rules"), "iters:", case.get("iters"), "default:", case.get("default"), "costs:", case.get("costs"),
           "presets:", case.get("presets"))
     if obs.get("missing_checks"):
         print("constants matched by the patterns but never compared by the generated matcher:", obs["missing_checks"])
+    if obs.get("foreign"):
+        print(f"after stage `{obs['stage']}`:", "; ".join(obs["foreign"]))
+        return 1
     if "exception" in obs:
         print("pipeline exception:", obs["exception"])
         return 0
     print("extracted:\n" + obs.get("out_text", ""))
-    if obs.get("s4"):
-        print("extracted program in def-before-use order:", eg_ordered(obs["s4"]))
+    for nm in obs["names"]:
+        if obs["fn"][nm].get("s4"):
+            print(f"extracted @{nm} in def-before-use order:", eg_ordered(obs["fn"][nm]["s4"]))
     rc = 1 if obs.get("missing_checks") else 0
     if "out_sexp" in obs and case.get("args"):
         import ast
         vec = [ast.literal_eval(a) if a not in ("nan", "inf", "-inf") else float(a) for a in case["args"]]
-        bad = compare_on_sem(_Quiet(ctx), [(case, obs, [vec])])
-        lines = ctx.model("sem", sem_lines(obs["src_sexp"], case["arg_types"], [vec]) + sem_lines(obs["out_sexp"], case["arg_types"], [vec]))
-        print("reference semantics, source   :", lines[1])
-        print("reference semantics, extracted:", lines[3])
+        bad = compare_on_sem(_Quiet(ctx), [(case, obs, fname, [vec])])
+        at = case_funcs(case)[fname]
+        lines = ctx.model("sem", sem_lines(obs["src_sexp"], fname, at, [vec]) + sem_lines(obs["out_sexp"], fname, at, [vec]))
+        print(f"reference semantics, source    @{fname}:", lines[1])
+        print(f"reference semantics, extracted @{fname}:", lines[3])
         rc = 1 if bad else rc
     return rc
